@@ -122,4 +122,188 @@ example : ∀ x ∈ [(⟨0,5,1⟩ : Lint), ⟨3,6,2⟩, ⟨5,5,3⟩, ⟨5,9,4⟩
 /-- unsorted indices make `remove_indices` silently skip (why the sweep's order matters) -/
 example : removeIndices 0 [2, 0] [10, 11, 12] = [10, 11] := by decide
 
+/-! ## Added by the w22 audit: which permutation, no well-formedness hypothesis, the drop clause
+without `droppedBy`, zero-width and equal spans, non-vacuity of `removeIndices_spec` -/
+
+/-! ### Which permutation: the stable sort by the code's key -/
+
+/-- the sort key order (`(start, MAX - end)` compared lexicographically) is transitive -/
+theorem key_le_trans (a b c : Lint) (h1 : Lint.le a b = true) (h2 : Lint.le b c = true) :
+    Lint.le a c = true := by
+  simp only [Lint.le, Bool.or_eq_true, decide_eq_true_eq, Bool.and_eq_true, beq_iff_eq] at *
+  omega
+
+theorem insertSorted_key_sorted (x : Lint) (ys : List Lint)
+    (h : ys.Pairwise (fun a b => Lint.le a b = true)) :
+    (insertSorted x ys).Pairwise (fun a b => Lint.le a b = true) := by
+  induction ys with
+  | nil => simp [insertSorted]
+  | cons y ys ih =>
+    have ⟨h1, h2⟩ := List.pairwise_cons.mp h
+    unfold insertSorted; split
+    · rename_i hxy
+      refine List.pairwise_cons.mpr ⟨?_, h⟩
+      intro b hb
+      rcases List.mem_cons.mp hb with rfl | hb
+      · exact hxy
+      · exact key_le_trans _ _ _ hxy (h1 b hb)
+    · rename_i hxy
+      have hyx : Lint.le y x = true := by
+        rcases le_total' x y with h | h
+        · exact absurd h hxy
+        · exact h
+      refine List.pairwise_cons.mpr ⟨?_, ih h2⟩
+      intro b hb
+      rcases List.mem_cons.mp ((insertSorted_perm x ys).mem_iff.mp hb) with rfl | hb
+      · exact hyx
+      · exact h1 b hb
+
+/-- the sorted list is in non-decreasing KEY order (start ascending, then end DESCENDING), not
+only start order -/
+theorem isort_key_sorted (l : List Lint) :
+    (isort l).Pairwise (fun a b => a.s < b.s ∨ (a.s = b.s ∧ b.e ≤ a.e)) := by
+  have : (isort l).Pairwise (fun a b => Lint.le a b = true) := by
+    induction l with
+    | nil => simp [isort]
+    | cons x xs ih => exact insertSorted_key_sorted x _ ih
+  refine this.imp ?_
+  intro a b h
+  simpa only [Lint.le, Bool.or_eq_true, decide_eq_true_eq, Bool.and_eq_true, beq_iff_eq] using h
+
+theorem insertSorted_filter_key (x : Lint) (ys : List Lint) (s e : Nat) :
+    (insertSorted x ys).filter (fun y => y.s == s && y.e == e)
+      = (x :: ys).filter (fun y => y.s == s && y.e == e) := by
+  induction ys with
+  | nil => simp [insertSorted]
+  | cons y ys ih =>
+    unfold insertSorted; split
+    · rfl
+    · rename_i hxy
+      by_cases hx : (x.s == s && x.e == e) = true
+      · -- `y` has another key than `x`, hence is filtered out on both sides
+        have hy : (y.s == s && y.e == e) = false := by
+          apply Bool.eq_false_iff.mpr
+          intro hy
+          apply hxy
+          simp only [Bool.and_eq_true, beq_iff_eq] at hx hy
+          simp only [Lint.le, Bool.or_eq_true, decide_eq_true_eq, Bool.and_eq_true, beq_iff_eq]
+          omega
+        rw [List.filter_cons, hy, if_neg (by simp), ih]
+        simp only [List.filter_cons, hx, hy, if_true]
+        simp
+      · have hx' : (x.s == s && x.e == e) = false := Bool.eq_false_iff.mpr hx
+        rw [List.filter_cons, ih]
+        simp only [List.filter_cons, hx']
+        simp
+
+/-- **the sort is stable**: lints with the same key (same span) keep their input order. Together
+with `isort_perm` and `isort_key_sorted` this determines `isort l` uniquely: it is THE stable
+sort of `l` by `(start, MAX - end)`, what `sort_by_key` computes. -/
+theorem isort_stable (l : List Lint) (s e : Nat) :
+    (isort l).filter (fun y => y.s == s && y.e == e) = l.filter (fun y => y.s == s && y.e == e) := by
+  induction l with
+  | nil => rfl
+  | cons x xs ih =>
+    simp only [isort]
+    rw [insertSorted_filter_key, List.filter_cons, List.filter_cons, ih]
+
+/-- Nothing invented, nothing altered, nothing reordered beyond the sort: the output is a
+sub-list of the stably sorted input (for fewer than two lints, of the input itself, which is its
+own sort). Stronger than `removeOverlaps_sublist_of_perm`, which leaves the permutation open. -/
+theorem removeOverlaps_sublist_isort (l : List Lint) : (removeOverlaps l).Sublist (isort l) := by
+  unfold removeOverlaps
+  split
+  · rename_i h
+    match l, h with
+    | [], _ => simp [isort]
+    | [x], _ => simp [isort, insertSorted]
+    | _ :: _ :: _, h => simp at h; omega
+  · simp only []
+    rw [removeIndices_sweepIdx]
+    exact sweep_sublist _ _
+
+/-- `sweep` on a start-sorted list: kept lints are pairwise disjoint WITHOUT assuming
+`start ≤ end` of the lints -/
+theorem sweep_kept_sorted (cur : Nat) (ls : List Lint) (hs : StartSorted ls) :
+    (∀ k ∈ (sweep cur ls).1, cur ≤ k.s) ∧
+    (sweep cur ls).1.Pairwise (fun a b => a.e ≤ b.s) := by
+  induction ls generalizing cur with
+  | nil => simp [sweep]
+  | cons l ls ih =>
+    have hs' : StartSorted ls := (List.pairwise_cons.mp hs).2
+    have hle : ∀ x ∈ ls, l.s ≤ x.s := (List.pairwise_cons.mp hs).1
+    unfold sweep; split
+    · exact ih cur hs'
+    · rename_i h
+      have ⟨h1, h2⟩ := ih l.e hs'
+      constructor
+      · intro k hk
+        rcases List.mem_cons.mp hk with rfl | hk
+        · omega
+        · have := hle k ((sweep_sublist l.e ls).subset hk); omega
+      · exact List.pairwise_cons.mpr ⟨fun b hb => h1 b hb, h2⟩
+
+/-- `removeOverlaps_disjoint` for EVERY list of lints (the property's quantifier): the hypothesis
+`start ≤ end` is not needed, the sort order does its work. -/
+theorem removeOverlaps_disjoint_any (l : List Lint) :
+    (removeOverlaps l).Pairwise (fun a b => a.e ≤ b.s) := by
+  unfold removeOverlaps
+  split
+  · rename_i h
+    match l, h with
+    | [], _ => simp
+    | [x], _ => simp
+    | _ :: _ :: _, h => simp at h; omega
+  · simp only []
+    rw [removeIndices_sweepIdx]
+    exact (sweep_kept_sorted 0 (isort l) (isort_sorted l)).2
+
+/-- a malformed lint (`start > end`, which `Span`'s public fields allow) among well-formed ones -/
+example : removeOverlaps [⟨4,6,1⟩, ⟨5,3,2⟩, ⟨6,2,3⟩, ⟨6,9,4⟩] = [⟨4,6,1⟩, ⟨6,9,4⟩] := by decide
+
+/-- The drop clause without `droppedBy`: every lint of the input is kept, or starts inside (or at
+the start of) a lint that is kept. -/
+theorem kept_or_starts_inside_kept (l : List Lint) :
+    ∀ d ∈ l, d ∈ removeOverlaps l ∨ ∃ k ∈ removeOverlaps l, k.s ≤ d.s ∧ d.s < k.e := by
+  intro d hd
+  obtain ⟨hp, hin⟩ := dropped_inside_kept l
+  rcases List.mem_append.mp (hp.mem_iff.mpr hd) with h | h
+  · exact Or.inl h
+  · exact Or.inr (hin d h)
+
+/-- a kept lint is never also "covered": with distinct payloads, kept and dropped are disjoint
+sets. Concretely, of two lints with the same span the FIRST in input order survives (stability) -/
+example : removeOverlaps [⟨2,4,7⟩, ⟨2,4,8⟩, ⟨0,1,9⟩] = [⟨0,1,9⟩, ⟨2,4,7⟩] := by decide
+example : removeOverlaps [⟨2,4,8⟩, ⟨2,4,7⟩, ⟨0,1,9⟩] = [⟨0,1,9⟩, ⟨2,4,8⟩] := by decide
+
+/-- zero-width lints: two at the same place are BOTH kept (they share no character; `a.e ≤ b.s`
+holds with equality), one at the END of a kept lint is kept, one at its START or inside is dropped -/
+example : removeOverlaps [⟨2,2,1⟩, ⟨2,2,2⟩] = [⟨2,2,1⟩, ⟨2,2,2⟩] := by decide
+example : removeOverlaps [⟨2,5,1⟩, ⟨5,5,2⟩, ⟨2,2,3⟩, ⟨3,3,4⟩] = [⟨2,5,1⟩, ⟨5,5,2⟩] := by decide
+
+/-- non-vacuity of `removeIndices_spec`: strictly increasing indices at or after the running index
+(the test of `vec_ext.rs`) -/
+example : removeIndices 0 [1, 4, 6] [0, 1, 2, 3, 4, 5, 6, 7, 8, 9] = [0, 2, 3, 5, 7, 8, 9] := by decide
+example : [1, 4, 6].Pairwise (· < ·) ∧ ∀ r ∈ [1, 4, 6], 0 ≤ r := by decide
+example : removeIndices 0 [1, 4, 6] [0, 1, 2, 3, 4, 5, 6, 7, 8, 9]
+    = (([0, 1, 2, 3, 4, 5, 6, 7, 8, 9].zipIdx 0).filter (fun p => ![1, 4, 6].contains p.2)).map (·.1) :=
+  removeIndices_spec _ 0 [1, 4, 6] (by decide) (by decide)
+
+/-- the sweep's index queue IS strictly increasing from the running index, so `removeIndices_spec`
+applies to what `remove_overlaps` hands to `remove_indices` -/
+theorem sweepIdx_increasing (cur i : Nat) (ls : List Lint) :
+    (sweepIdx cur i ls).Pairwise (· < ·) ∧ ∀ r ∈ sweepIdx cur i ls, i ≤ r := by
+  induction ls generalizing cur i with
+  | nil => simp [sweepIdx]
+  | cons l ls ih =>
+    unfold sweepIdx; split
+    · have ⟨h1, h2⟩ := ih cur (i + 1)
+      refine ⟨List.pairwise_cons.mpr ⟨fun r hr => by have := h2 r hr; omega, h1⟩, ?_⟩
+      intro r hr
+      rcases List.mem_cons.mp hr with rfl | hr
+      · exact Nat.le_refl _
+      · have := h2 r hr; omega
+    · have ⟨h1, h2⟩ := ih l.e (i + 1)
+      exact ⟨h1, fun r hr => by have := h2 r hr; omega⟩
+
 end Harper.C13
